@@ -10,9 +10,10 @@ F == [i \in Corner |-> ToNode(R.nodes[i])]
 TInit == /\ k \in 1..Len(Obs)
          /\ face = F /\ prev = R.prev /\ out = Special(F, R.prev)
 TSpec == TInit /\ [][UNCHANGED <<vars, k>>]_<<vars, k>>
-\* the real function decided as the specification does, and touched no face it had no business with
-P_Decision == R.model = Model => R.out = out
-P_Local    == ~R.others_touched
+\* D_*: the real function decides as the specification does and touches no other face.  This is conformance with the design of
+\* the phase, not one of the listed properties: a disagreement is reported as design drift, never as a violation.
+D_Decision == R.model = Model => R.out = out
+D_Local    == ~R.others_touched
 \* C08: the index written is one that a three-face-type epithelial cell defines
 P_IndexInRange == R.out \in 0..2
 =============================================================================
